@@ -4,6 +4,7 @@ package props
 // compares what they return.
 
 import (
+	"reflect"
 	"encoding/json"
 	"fmt"
 	"io"
@@ -34,6 +35,9 @@ type world struct {
 	// System is then the LocationProvider that resolves parents, with its
 	// location cache and the cron hooks it installs.
 	engine *sys.System
+	// typing != 0: facts are handed to AddFact in Go-typed form (see
+	// goTyped), as Go callers and the Javascript bridge deliver them.
+	typing int
 	// loadDesc: the storage hands back a location's records in descending
 	// instead of ascending key order (see orderedStore).
 	loadDesc bool
@@ -181,6 +185,86 @@ func (w *world) build(name string) (*core.Location, error) {
 	return loc, nil
 }
 
+// goTyped turns a JSON-typed value into what Go code and the Javascript
+// bridge (otto exports homogeneous arrays as typed slices) hand over: nested
+// core.Map, []string, []map[string]interface{}, [][]string, selected by the
+// bits of mask.  The top-level map stays a plain map.
+func goTyped(x interface{}, mask int, site *int, top bool) interface{} {
+	bit := func() bool {
+		b := mask&(1<<(*site%12)) != 0
+		*site++
+		return b
+	}
+	switch v := x.(type) {
+	case map[string]interface{}:
+		n := make(map[string]interface{}, len(v))
+		for _, k := range gen.SortedKeys(M(v)) {
+			n[k] = goTyped(v[k], mask, site, false)
+		}
+		if !top && bit() {
+			return core.Map(n)
+		}
+		return n
+	case []interface{}:
+		n := make([]interface{}, len(v))
+		allStr, allMap, allStrArr := len(v) > 0, len(v) > 0, len(v) > 0
+		for i, y := range v {
+			n[i] = goTyped(y, mask, site, false)
+			if _, ok := y.(string); !ok {
+				allStr = false
+			}
+			if _, ok := y.(map[string]interface{}); !ok {
+				allMap = false
+			}
+			ok := false
+			switch ya := y.(type) {
+			case A:
+				ok = len(ya) > 0
+				for _, z := range ya {
+					if _, isStr := z.(string); !isStr {
+						ok = false
+					}
+				}
+			}
+			if !ok {
+				allStrArr = false
+			}
+		}
+		if !bit() {
+			return n
+		}
+		switch {
+		case allStr:
+			ss := make([]string, len(v))
+			for i, y := range v {
+				ss[i] = y.(string)
+			}
+			return ss
+		case allMap:
+			ms := make([]map[string]interface{}, len(v))
+			for i := range v {
+				switch m := n[i].(type) {
+				case map[string]interface{}:
+					ms[i] = m
+				case core.Map:
+					ms[i] = map[string]interface{}(m)
+				}
+			}
+			return ms
+		case allStrArr:
+			sss := make([][]string, len(v))
+			for i, y := range v {
+				for _, z := range y.(A) {
+					sss[i] = append(sss[i], z.(string))
+				}
+			}
+			return sss
+		}
+		return n
+	}
+	return x
+}
+
 func nowSecs() int64 { return time.Now().UTC().Unix() }
 
 // ---------------------------------------------------------------------
@@ -196,7 +280,13 @@ type opResult struct {
 func (w *world) addFact(name, id string, fact M) opResult {
 	loc, ml := w.locs[name], w.model[name]
 	t0 := nowSecs()
-	gotId, err := loc.AddFact(newCtx(), id, core.Map(gen.CopyMap(fact)))
+	given := core.Map(gen.CopyMap(fact))
+	if w.typing != 0 {
+		site := 0
+		given = core.Map(goTyped(map[string]interface{}(given), w.typing, &site, true).(map[string]interface{}))
+		w.o.Label("go-typed-fact")
+	}
+	gotId, err := loc.AddFact(newCtx(), id, given)
 	t1 := nowSecs()
 	if err != nil {
 		return opResult{"", err}
@@ -527,7 +617,14 @@ func equalStored(want, got interface{}) bool {
 				g = append(g, s)
 			}
 		default:
-			return false
+			// other Go-typed slices ([]map[string]interface{}, [][]string, ...)
+			rv := reflect.ValueOf(got)
+			if rv.Kind() != reflect.Slice {
+				return false
+			}
+			for i := 0; i < rv.Len(); i++ {
+				g = append(g, rv.Index(i).Interface())
+			}
 		}
 		if len(w) != len(g) {
 			return false
